@@ -221,7 +221,9 @@ def run_property(prop, tier='quick', replay=None):
     errors = []
     exhausted = True
     bounded_viol = 0
-    if crash is None:
+    if crash is None and os.environ.get('PV_SKIP_BOUNDED') and env.REPO != '/repo':
+        pass        # robustness self-tests of the deductive tier on scratch trees (tools/rename_test.py); never for /repo itself
+    elif crash is None:
         try:
             gen = prop.cases(tier, seed)
             ctx = mp.get_context('fork')
